@@ -573,6 +573,8 @@ def get_attr(I, st, obj, attr):
         if v is not None:
             return [(st, v)]
         return [(st, BoundMethod(obj, attr))]
+    if type(obj).__name__ == "AnyTable":
+        return [(st, BoundMethod(obj, attr))]
     if isinstance(obj, ErrRef):
         return err_get_attr(I, st, obj, attr)
     if isinstance(obj, ErrVal):
